@@ -44,7 +44,7 @@ def run(run):
     run.explanation = EXPLANATION
     run.assumptions += ["numpy: a[::-1] reverses the first axis"]
     run.undecided_clauses += ["numerical values produced by the sampler callables"]
-    for r, n in (("C06.R1", 1), ("C06.R2", 1), ("C06.R2b", 7), ("C06.R3", 5), ("C06.R4", 1), ("C06.R5", 4), ("C06.R6", 1), ("C06.R7", 6)):
+    for r, n in (("C06.R1", 1), ("C06.R2", 1), ("C06.R2b", 4), ("C06.R3", 5), ("C06.R4", 1), ("C06.R5", 4), ("C06.R6", 1), ("C06.R7", 6)):
         run.floor(r, n)
     _r1_r2(run)
     parity.check(run, "C06.R2b", skip_classes=("ToastSampler",))
